@@ -376,15 +376,15 @@ pub fn falsey_other(which: u8) {
 pub struct Rec {
     n: usize,
     // (tag, value): tag = which Hasher method, value = payload folded to u64
-    ev: [(u8, u64); 8],
+    ev: [(u8, u64); 16],
     overflow: bool,
 }
 impl Rec {
     pub fn new() -> Self {
-        Rec { n: 0, ev: [(0, 0); 8], overflow: false }
+        Rec { n: 0, ev: [(0, 0); 16], overflow: false }
     }
     fn rec(&mut self, t: u8, v: u64) {
-        if self.n < 8 {
+        if self.n < 16 {
             self.ev[self.n] = (t, v);
             self.n += 1;
         } else {
@@ -452,9 +452,12 @@ pub fn key(kind: u8) -> Object {
         K_BOOL => Object::Bool(sym::bool_()),
         K_NULL => Object::Null,
         K_BUILTIN => {
-            // a builtin-function key: one of two names (keys compare and hash by name)
+            // a builtin-function key: one of three names (keys compare and hash by name): two of equal
+            // length differing in the last byte, and one that has another as a proper prefix
             use crate::object::func::BuiltinFunction;
-            let name = if sym::bool_() { "len" } else { "les" };
+            let w = sym::u8_();
+            sym::assume(w < 3);
+            let name = if w == 0 { "get" } else if w == 1 { "ges" } else { "get_errno" };
             Object::Builtin(Rc::new(BuiltinFunction::new(name, dummy_builtin)))
         }
         _ => {
@@ -484,7 +487,17 @@ pub fn ref_key_eq(a: &Object, b: &Object) -> bool {
         (Object::Null, Object::Null) => true,
         (Object::Builtin(x), Object::Builtin(y)) => {
             let (p, q) = (x.name.as_bytes(), y.name.as_bytes());
-            p.len() == q.len() && p[0] == q[0] && p[1] == q[1] && p[2] == q[2]
+            if p.len() != q.len() {
+                false
+            } else {
+                let mut same = true;
+                let mut i = 0;
+                while i < p.len() {
+                    same &= p[i] == q[i];
+                    i += 1;
+                }
+                same
+            }
         }
         (Object::Str(x), Object::Str(y)) => {
             let (p, q) = (x.as_bytes(), y.as_bytes());
